@@ -93,6 +93,8 @@ type Contract struct {
 	cases    []*Clause // explicit case split applied to every postcondition
 	asserts  []*Clause // proved at function exit, then available to the postconditions
 	script   []scriptStmt // let / assert / use / generalize in source order
+	bodies   map[int][]*Clause // per-iteration obligations checked at the back edge
+	entries  map[int][]*Clause // obligations checked when the loop is first reached
 	invs     map[int][]*Clause
 	decr     map[int]*Clause
 	opts     map[string]string
@@ -499,7 +501,7 @@ func (cs *ContractSet) parseFile(pkg, path, src string) error {
 				}
 				cs.specs[sf.name] = sf
 			case "func", "lemma":
-				cur = &Contract{pkg: pkg, opts: map[string]string{}, invs: map[int][]*Clause{}, decr: map[int]*Clause{}, file: path, line: ln + 1}
+				cur = &Contract{pkg: pkg, opts: map[string]string{}, invs: map[int][]*Clause{}, bodies: map[int][]*Clause{}, entries: map[int][]*Clause{}, decr: map[int]*Clause{}, file: path, line: ln + 1}
 				if word == "lemma" {
 					cur.lemma = true
 					// lemma name(params)
@@ -598,6 +600,21 @@ func (cs *ContractSet) parseFile(pkg, path, src string) error {
 				cur.script = append(cur.script, scriptStmt{kind: "let", let: l, text: rest})
 			} else {
 				cur.prelets = append(cur.prelets, l)
+			}
+		case "body", "atentry":
+			f := strings.SplitN(rest, " ", 2)
+			n, err := strconv.Atoi(f[0])
+			if err != nil || len(f) < 2 {
+				return errf("%s needs a loop ordinal and an expression", word)
+			}
+			e, vars, err := parseExpr(f[1])
+			if err != nil {
+				return errf("%v", err)
+			}
+			if word == "body" {
+				cur.bodies[n] = append(cur.bodies[n], &Clause{text: f[1], vars: vars, expr: e, line: ln + 1})
+			} else {
+				cur.entries[n] = append(cur.entries[n], &Clause{text: f[1], vars: vars, expr: e, line: ln + 1})
 			}
 		case "invariant", "decreases":
 			f := strings.SplitN(rest, " ", 2)
@@ -969,7 +986,18 @@ func (x *Exec) typeOfValue(st *State, v Value) types.Type {
 			return nil
 		}
 		ty := t.cell.typ
+		if t.sym != nil {
+			if at, ok := ty.Underlying().(*types.Array); ok {
+				ty = at.Elem()
+			}
+		}
 		for _, i := range t.path {
+			if i <= -1000000 {
+				if at, ok := ty.Underlying().(*types.Array); ok {
+					ty = at.Elem()
+				}
+				continue
+			}
 			switch u := ty.Underlying().(type) {
 			case *types.Struct:
 				ty = u.Field(i).Type()
@@ -1396,7 +1424,22 @@ func (x *Exec) specBuiltin(st *State, env *Env, name string, args []Expr) (Value
 			fail("old() outside postcondition")
 		}
 		tmp := env.old.fork()
-		return x.eval(tmp, env.oldEnv, args[0]), true
+		tmp.apps = st.apps
+		tmp.ax = st.ax
+		oe := env.oldEnv.child()
+		for c := env; c != nil && c != env.oldEnv; c = c.parent {
+			for k, v := range c.vars {
+				if _, isParam := env.oldEnv.lookup(k); !isParam {
+					if _, set := oe.vars[k]; !set {
+						oe.vars[k] = v
+					}
+				}
+			}
+		}
+		v := x.eval(tmp, oe, args[0])
+		st.apps = tmp.apps
+		st.ax = tmp.ax
+		return v, true
 	case "pre":
 		if env.preSt == nil || env.preEnv == nil {
 			fail("pre() outside a loop invariant")
@@ -1420,6 +1463,62 @@ func (x *Exec) specBuiltin(st *State, env *Env, name string, args []Expr) (Value
 		st.apps = tmp.apps
 		st.ax = tmp.ax
 		return v, true
+	case "nev", "evarg", "evbefore":
+		strArg := func(i int) string {
+			s, ok := x.eval(st, env, args[i]).(*Str)
+			if !ok || s.sym != nil {
+				fail("%s needs a literal event name", name)
+			}
+			return s.s
+		}
+		match := func(ev Event, nm string) bool {
+			return ev.kind == "ext:"+nm || ev.kind == nm || strings.HasSuffix(ev.kind, nm)
+		}
+		evs := st.log[st.logMark:]
+		switch name {
+		case "nev":
+			nm := strArg(0)
+			n := 0
+			for _, ev := range evs {
+				if match(ev, nm) {
+					n++
+				}
+			}
+			return mkInt(int64(n)), true
+		case "evarg":
+			nm := strArg(0)
+			k, ok1 := concreteInt(num(1))
+			ai, ok2 := concreteInt(num(2))
+			if !ok1 || !ok2 {
+				fail("evarg needs concrete indices")
+			}
+			n := 0
+			for _, ev := range evs {
+				if match(ev, nm) {
+					if n == k {
+						if ai >= len(ev.args) {
+							fail("evarg: event %s has %d arguments", nm, len(ev.args))
+						}
+						return ev.args[ai], true
+					}
+					n++
+				}
+			}
+			x.symArrCtr++
+			return &Opaque{tag: "noevent", id: freshVar(fmt.Sprintf("noevent%d", x.symArrCtr), SInt)}, true
+		default:
+			a, b := strArg(0), strArg(1)
+			ia, ib := -1, -1
+			for i, ev := range evs {
+				if match(ev, a) && ia < 0 {
+					ia = i
+				}
+				if match(ev, b) {
+					ib = i
+				}
+			}
+			return mkBool(ia >= 0 && ib >= 0 && ia < ib), true
+		}
 	case "nsent":
 		n := 0
 		base := 0
@@ -1450,7 +1549,9 @@ func (x *Exec) specBuiltin(st *State, env *Env, name string, args []Expr) (Value
 				n++
 			}
 		}
-		fail("sent(%d): fewer sends on this path", k)
+		// no such send on this path: unspecified batch (the clause must guard it)
+		x.symArrCtr++
+		return x.symValue(st, types.NewSlice(types.NewPointer(types.Typ[types.Int])), fmt.Sprintf("nosend%d", x.symArrCtr)), true
 	case "samecell":
 		a, ok1 := x.eval(st, env, args[0]).(*SliceV)
 		b, ok2 := x.eval(st, env, args[1]).(*SliceV)
